@@ -1,6 +1,6 @@
 (* C08 — property theorems (statements only; proofs live in Proofs*.v).  See notes/C08.md for the status of each. *)
 From Coq Require Import List ZArith QArith Qabs Bool.
-Require Import QV.C08.Model QV.C08.Spec QV.C08.Wf QV.C08.Proofs QV.C08.ProofsVec QV.C08.ProofsRev QV.C08.ProofsConst QV.C08.ProofsTotal QV.C08.ProofsProper QV.C08.ProofsCtor QV.C08.Hist QV.C08.ProofsHist QV.C08.ProofsTrafo QV.C08.ProofsConstT QV.C08.ProofsTotalT QV.C08.ProofsTable QV.C08.ProofsPar QV.C08.ProofsOp QV.C08.ProofsFlat QV.C08.ProofsDen QV.C08.ProofsSimple QV.C08.ProofsHistT.
+Require Import QV.C08.Model QV.C08.Spec QV.C08.Wf QV.C08.Proofs QV.C08.ProofsVec QV.C08.ProofsRev QV.C08.ProofsConst QV.C08.ProofsTotal QV.C08.ProofsProper QV.C08.ProofsCtor QV.C08.Hist QV.C08.ProofsHist QV.C08.ProofsTrafo QV.C08.ProofsConstT QV.C08.ProofsTotalT QV.C08.ProofsTable QV.C08.ProofsPar QV.C08.ProofsOp QV.C08.ProofsFlat QV.C08.ProofsDen QV.C08.ProofsSimple QV.C08.ProofsHistT QV.C08.Lin QV.C08.ProofsLin QV.C08.ProofsLinDen QV.C08.ProofsDedup.
 Import ListNotations.
 Open Scope Q_scope.
 
@@ -262,3 +262,92 @@ Theorem C08_history : forall w content calls, simple_all w = true ->
   run_hist w calls [] = map (fun call => get_sampled w (fst (fst call)) (snd call)) calls.
 Proof. exact history_independent_simple. Qed.
 Print Assumptions C08_history.
+
+(* ==== round 2 ==== *)
+
+(* ---- transformations WITH LinearTransformation parts ---- *)
+(* a TransformingWaveform applies its transformation to the channels get_input_channels selects (restricted data d),
+   from_transformation and the denotation apply it to the complete inner data D: whenever neither call raises, both give
+   the same binding for every requested channel, and the requested channels are bound.  [t_wfb] = the shape the
+   constructor of LinearTransformation guarantees + at least one input channel *)
+Theorem C08_trafo_restricted_is_complete : forall T, t_wfb T = true -> forall t S ins (d D o O : data),
+  t_in T S = Some ins ->
+  (forall k, inb k ins = true -> lookup k d = lookup k D /\ lookup k d <> None) ->
+  t_point T t d = Some o -> t_point T t D = Some O ->
+  forall k, inb k S = true -> lookup k o = lookup k O /\ lookup k o <> None.
+Proof. exact t_restrict_agree. Qed.
+Print Assumptions C08_trafo_restricted_is_complete.
+(* the complete evaluation never raises and produces exactly get_output_channels *)
+Theorem C08_trafo_complete_total : forall T, t_wfb T = true -> forall ks co t (D : data),
+  (forall c, inb c (keys D) = inb c ks) -> t_out T ks = Some co ->
+  exists O, t_point T t D = Some O /\ forall c, inb c (keys O) = inb c co.
+Proof. exact t_full_ok. Qed.
+Print Assumptions C08_trafo_complete_total.
+
+(* from_transformation, ALL transformations (closes the gap of C08_from_transformation_const): guards [t_wfb] and
+   [kerr = false] (known finding C08-chain-parallel-linear-keyerror: there the plain waveform raises) *)
+Theorem C08_from_transformation : forall w T d w', okb (WTrans w T) = true -> t_wfb T = true ->
+  cvd w = Some d -> t_const_inv T = true -> from_transformation w T = OK w' -> forall c t,
+  inb c (channels (WTrans w T)) = true -> kerr (WTrans w T) c = false -> 0 <= t -> t < duration w ->
+  oQeq (sample w' c t) (sample (WTrans w T) c t).
+Proof. exact from_transformation_sound_gen. Qed.
+Print Assumptions C08_from_transformation.
+Theorem C08_from_transformation_plain : forall w T, (cvd w = None \/ t_const_inv T = false) ->
+  from_transformation w T = mk_trans w T.
+Proof. exact from_transformation_plain. Qed.
+Print Assumptions C08_from_transformation_plain.
+(* without [t_wfb] (a LinearTransformation without input channels): refuted, nothing raises and the answers differ *)
+Theorem C08_from_transformation_empty_linear_refuted : exists w T w' c t,
+  from_transformation w T = OK w' /\ okb (WTrans w T) = true /\ inb c (channels (WTrans w T)) = true /\
+  kerr (WTrans w T) c = false /\ t_wfb T = false /\
+  oQeqb (sample w' c t) (Some 7) = true /\ oQeqb (sample (WTrans w T) c t) (Some 9) = true.
+Proof.
+  exists (WMulti [WConst 1 3 1%N; WConst 1 4 2%N]),
+         (TChain [TParallel [(3%N, TC 9)]; TLinear [1%N; 2%N] [3%N] [[1; 1]]; TLinear [] [3%N] [[]]]).
+  eexists. exists 3%N, (1#4). vm_compute. repeat split; reflexivity.
+Qed.
+Print Assumptions C08_from_transformation_empty_linear_refuted.
+
+(* the code denotes what DESIGN 4.4 says, now WITH transformations of any kind (the denotation transforms the complete
+   inner waveform): guards = reversal only directly around tables / function waveforms, constructor shape of every
+   transformation, no KeyError on the path of the channel *)
+Theorem C08_sample_is_denotation_T : forall w, okb w = true -> plainrevT w = true -> twf_all w = true -> forall c t,
+  inb c (channels w) = true -> kerr w c = false -> 0 <= t -> t < duration w -> den w c t = sample w c t.
+Proof. exact sample_is_den_T. Qed.
+Print Assumptions C08_sample_is_denotation_T.
+
+(* ---- from_table: the de-duplication of _validate_input preserves every sample on [0, duration) for EVERY table, and
+   on the closed interval under the executable guard [final_triple tab = false] (exactly the class refuted by
+   C08_from_table_dedup_refuted); constant branch included ---- *)
+Theorem C08_table_dedup : forall tab t', validate_input tab = OK (inr t') ->
+  last_t t' = last_t tab /\
+  forall t, (t < last_t tab \/ final_triple tab = false) -> oQeq (table_at t' t None) (table_at tab t None).
+Proof. exact validate_dedup_sound. Qed.
+Print Assumptions C08_table_dedup.
+Theorem C08_from_table : forall c tab w', from_table c tab = OK w' ->
+  duration w' == last_t tab /\ channels w' = [c] /\
+  forall t, 0 <= t -> (t < last_t tab \/ (final_triple tab = false /\ t <= last_t tab)) ->
+  oQeq (sample w' c t) (sample (WTable c tab) c t).
+Proof. exact from_table_dedup_sound. Qed.
+Print Assumptions C08_from_table.
+
+(* ---- histories with LinearTransformation parts: the by-products a transformation call leaves in the per-instance
+   cache are NOT always what a direct request computes (known finding C08-trafo-cache-shadowed-byproduct, found by the
+   proof attempt, confirmed on the real code): the second call of this history is answered 7, a fresh object 2 + t ---- *)
+Theorem C08_history_shadow_refuted : exists w calls c ts,
+  okb w = true /\ twf_all w = true /\ kerr w c = false /\ In (c, 0%N, ts) calls /\
+  (forall c' a' ts', In (c', a', ts') calls -> ts' = ts) /\
+  match nth 1 (run_hist w calls []) (Err EType), get_sampled w c ts with
+  | OK [Some a0; Some a1; Some a2], OK [Some f0; Some f1; Some f2] =>
+      Qeq_bool a0 7 && Qeq_bool a1 7 && Qeq_bool a2 7 && Qeq_bool f0 2 && Qeq_bool f1 (9#4) && Qeq_bool f2 (5#2)
+  | _, _ => false
+  end = true.
+Proof.
+  exists (WTrans (WMulti [WConst 1 2 1%N; WTable 2%N [mkE 0 0 Hold; mkE 1 1 Linear]; WTable 3%N [mkE 0 0 Hold; mkE 1 3 Linear]])
+                 (TChain [TParallel [(4%N, TC 7)]; TLinear [1%N; 2%N] [4%N] [[1; 1]]])),
+         [(3%N, 0%N, [0; 1#4; 1#2]); (4%N, 0%N, [0; 1#4; 1#2])], 4%N, [0; 1#4; 1#2].
+  split; [reflexivity|]. split; [reflexivity|]. split; [reflexivity|]. split; [right; left; reflexivity|].
+  split; [|vm_compute; reflexivity].
+  intros c' a' ts' [H|[H|[]]]; injection H as _ _ <-; reflexivity.
+Qed.
+Print Assumptions C08_history_shadow_refuted.
